@@ -15,6 +15,17 @@ that holds one row per (utility vector, availability pattern, chosen alternative
     * every one of the 2^J - 1 availability patterns, as data columns, as constants and as None,
     * utilities as data columns, numeric constants, fixed and free Betas.
 
+Entry points: besides the model functions above, every other exported way to the same models - the backward-compatible
+names (cnl_avail / logcnl_avail, nestedMevMu / lognestedMevMu) and mev / logmev fed with the dict of ln G_i returned by
+get_mev_for_nested[_mu] / get_mev_for_cross_nested[_mu] and their camelCase names - with nests given as objects or in
+the old tuple syntax (forms sweeps: every J <= 3 nested structure, every J = 2 two-nest CNL structure).
+
+Histories: the model functions are called the way a simulation script calls them - many calls with ONE dict of utilities,
+ONE dict of availabilities, ONE nest object, ONE dict of ln G_i: every ordered pair of entry points of a family (logit /
+loglogit included), the per-alternative loop (one call per alternative with a constant choice, in every rotation of the
+alternatives), thorough: every triple over 4-6 entry points, loop + call, all permutations.  Every expression is evaluated
+after all the calls of its history were made and must satisfy the same clauses (nothing else is demanded of a history).
+
 Oracle per (utility vector, availability pattern): every probability in [0,1]; zero when unavailable; sum = 1;
 equal to the textbook closed form (vf.ref_mev: own G(y), closed form cross-checked with dual numbers; it never
 imports biogeme); unchanged when one constant is added to all utilities; log model == ln(probability model).
@@ -39,7 +50,9 @@ RULE = ('one case = one (model, expression forms, nest structure, parameter assi
         'whole utility grid (every utility vector x every chosen alternative x every shift is one compared probability '
         'vector, counted in evaluations). Non-trivial: at least two alternatives available, and for nested / cross-nested / '
         'user-MEV models additionally a nest with parameter != scale holding >= 2 available alternatives (so that the MEV '
-        'probabilities differ from logit); ordered models: every (K, thresholds) point. distinct = distinct such keys.')
+        'probabilities differ from logit); ordered models: every (K, thresholds) point. distinct = distinct such keys. '
+        'Histories: one case = one evaluated call of one history (sequence of entry points called with one set of argument '
+        'objects) x availability pattern, same non-triviality rule, the history is part of the key.')
 ASSUMPTIONS = [
     'continuous domains (utilities, nest parameters, scale, alpha, thresholds) are covered at the grid points of the '
     'per-seed alphabets only (5 alphabets; utilities in [-3, 3.2] plus common shifts up to |12|)',
@@ -50,6 +63,14 @@ ASSUMPTIONS = [
     'expression forms other than data columns (numeric constants, fixed / free Betas, constant or None availabilities, '
     'constant choice, Beta / Numeric nest and scale parameters, alpha as Beta) are crossed with every J=2 structure and '
     '(thorough) every J=3 nested structure; in quick they rotate over the J=3 structures',
+    'backward-compatible names and ln G_i helpers: crossed with the forms sweeps (J <= 3 nested, J = 2 CNL; helper rotating '
+    'with the structure) and with the histories; mev_endogenous_sampling / get_mev_generating_for_nested are not probability '
+    'models of the statement and are not called',
+    'histories of calls on shared argument objects: depth 2 over all 16 (nested / cnl) or 4 (user MEV) entry points and the '
+    'per-alternative loop, on a subset of contexts (quick: 4 J=2 + 3 J=3 nested, 3 J=2 + 2 J=3 CNL structures rotating with '
+    'the seed, user MEV J=2 all, J=3 every third; thorough: every J <= 3 nested structure, 3 J=4, 20 CNL structures, depth 3 '
+    'over a 4-6 entry alphabet on one context per family and J); utilities are data columns in the histories; quick '
+    'evaluates the last call of a pair (and its log / probability partner), thorough every call',
     'the reference (vf/ref_mev.py) is the trusted base: textbook nested / generalised nested logit closed forms with '
     'alpha^(mu_m/mu), cross-checked in every task against forward-mode differentiation of its own G(y)',
     'comparison tolerance: relative 1e-10 + absolute 1e-12 (shift invariance: relative 1e-9)',
@@ -1173,7 +1194,7 @@ def run_history(hc, history, rec, eval_all=False):
     specs = {}
     for k, vals in results.items():
         model, mode, order = history[k]
-        later = k > 0 or mode == 'loop'
+        later = len(history) > 1 or mode == 'loop'      # evaluated after every call of the history was made
         spec = dict(hc.base_spec(model), hist=dict(hist_case, step=k, later=later))
         specs[k] = spec
         bad = check_values(spec, hc.table, vals, hc.ref(spec), rec, log_model=model in LOG_OF)
@@ -1184,7 +1205,9 @@ def run_history(hc, history, rec, eval_all=False):
             continue
         for k2, vals2 in results.items():
             if history[k2][0] == pm:
-                compare_log_pair(specs[k], hc.table, vals2, vals, rec)
+                # the pair spans two calls of the history: history class key
+                sp = dict(specs[k], hist=dict(specs[k]['hist'], later=True))
+                compare_log_pair(sp, hc.table, vals2, vals, rec)
     rec.count('histories')
 
 
